@@ -90,7 +90,8 @@ class Source:
     set_parents(tree)
     tree._vz_file = rel  # type: ignore[attr-defined]
     for n in ast.walk(tree):
-      n._vz_file = rel  # type: ignore[attr-defined]
+      if not isinstance(n, _SINGLETONS):
+        n._vz_file = rel  # type: ignore[attr-defined]
     self._ast[rel] = tree
     return tree
 
@@ -108,10 +109,17 @@ def is_test_file(rel: str) -> bool:
           or b.startswith('test_') or '/testing/' in rel)
 
 
+_SINGLETONS = (ast.expr_context, ast.operator, ast.boolop, ast.unaryop, ast.cmpop)
+
+
 def set_parents(tree: ast.AST) -> None:
   tree._vz_parent = None  # type: ignore[attr-defined]
   for node in ast.walk(tree):
     for child in ast.iter_child_nodes(node):
+      # Load()/Store()/Add()/Eq()... are process-wide singletons shared by every tree: never hang a parent
+      # pointer on them (deepcopy of any Name would drag a whole module along)
+      if isinstance(child, _SINGLETONS):
+        continue
       child._vz_parent = node  # type: ignore[attr-defined]
 
 
